@@ -275,6 +275,8 @@ class Aggregation:
             self.finalize,
             self.fill_value,
             self.dtype,
+            self.finalize_kwargs,
+            self.min_count,
         )
 
     def __repr__(self) -> str:
@@ -433,7 +435,7 @@ def argreduce_preprocess(array, axis):
         idx,
         dtype=array.dtype,
         meta=array._meta,
-        name="groupby-argreduce-preprocess",
+        name="groupby-argreduce-preprocess-" + dask.base.tokenize(array, axis),
     )
 
 
